@@ -39,6 +39,15 @@ def build_calendar(spec, anchor=MON):
     if spec == 'holidays':
         return WeeklyCalendar(days=[0, 1, 2, 3, 4], units_per_day=8) - DirectCalendar({a + DAY: 8, a + 2 * DAY: 4,
                                                                                       a - DAY * 3: 8, a - DAY * 4: 4})
+    if spec == 'holidays2':
+        # holidays in the SECOND week the scheduler meets (forward: after the start, backward: before the deadline)
+        return WeeklyCalendar(days=[0, 1, 2, 3, 4], units_per_day=8) - DirectCalendar({a + 8 * DAY: 8, a + 9 * DAY: 4,
+                                                                                      a - 13 * DAY: 8, a - 12 * DAY: 4})
+    if spec == 'drop':
+        # capacity drops from the second week on (forward) / was lower before the last week (backward)
+        hi = timedelta(hours=23, minutes=59, seconds=59, microseconds=999999)
+        return (WeeklyCalendar(start=a - 7 * DAY, end=a + 6 * DAY + hi, days=[0, 1, 2, 3, 4], units_per_day=8)
+                | WeeklyCalendar(days=[0, 1, 2, 3, 4], units_per_day=4))
     if spec == 'half':
         return WeeklyCalendar(days=[0, 1, 2, 3, 4, 5, 6], units_per_day=8) * 0.5
     if spec == 'or2':
@@ -164,15 +173,22 @@ def build(sc):
 
 class Exec:
     __slots__ = ('sc', 'wbs', 'objs', 'ext', 'scheduler', 'status', 'result', 'error', 'clock_reads', 'clock_values',
-                 'lookups', 'resources_in', 'lazy')
+                 'lookups', 'resources_in', 'lazy', 'now0')
 
 
 def lookup_limit(n_tasks):
     return (n_tasks + 1) * 3 * 100000 + 1000
 
 
+def calc_clock(sc):
+    return sc.clock if sc.clock is not None else sc.anchor - 30 * DAY
+
+
 def make_scheduler(sc, resources):
+    """The scheduler object is constructed under a clock that is nine days EARLIER than the clock calc runs under:
+    "the current day" of the properties is the day of the calc call, not the day the object was built."""
     from pjplan import ForwardScheduler, BackwardScheduler
+    seams.CLOCK.set_const(calc_clock(sc) - 9 * DAY)
     if sc.sched == 'fwd':
         return ForwardScheduler(start=sc.anchor, resources=resources, balance_resources=sc.balance,
                                 default_estimate=sc.dflt)
@@ -216,8 +232,10 @@ def execute(sc, chooser=None, clock_menu=None, prebuilt=None, scheduler=None, re
     ex.scheduler = scheduler
     if clock_menu is not None:
         seams.CLOCK.set_script(clock_menu, chooser, getattr(clock_menu, 'start_pos', 0))
+        harness_now = clock_menu[getattr(clock_menu, 'start_pos', 0)]
     else:
-        seams.CLOCK.set_const(sc.clock if sc.clock is not None else sc.anchor - 30 * DAY)
+        harness_now = calc_clock(sc)
+        seams.CLOCK.set_const(harness_now)
     seams.BUDGET.reset(lookup_limit(len(sc.tasks)))
     ex.result = None
     ex.error = None
@@ -234,6 +252,8 @@ def execute(sc, chooser=None, clock_menu=None, prebuilt=None, scheduler=None, re
         ex.error = e
     ex.clock_reads = seams.CLOCK.reads
     ex.clock_values = list(seams.CLOCK.values_read)
+    # "now" at the time of the calc call: the first value calc read, or what it would have read
+    ex.now0 = ex.clock_values[0] if ex.clock_values else harness_now
     ex.lookups = seams.BUDGET.count
     seams.BUDGET.limit = None
     for lz in ex.lazy:
